@@ -400,6 +400,10 @@ def block_diagonalize(
 
             if scalar_input and not isinstance(result, sympy.MatrixBase):
                 result = sympy.Matrix([[result]])
+            elif sparse.issparse(result):
+                result = sympy.Matrix(result.toarray())
+            elif isinstance(result, np.ndarray):
+                result = sympy.Matrix(result)
 
             if isinstance(result, sympy.MatrixBase):
                 return result.applyfunc(
